@@ -4,23 +4,23 @@ import NmVerif.Containers.Core
   `maybe<T> : either<T, nothing_t>`), for trivial and non-trivial left types.
 
   Storage: a tag and a union `{left; right}`.  The model keeps, for the `left` member, the value bits and
-  whether the lifetime of a `left` object has begun (`live`) — constructor runs (`new(&left) T(..)`, member
-  initialiser) start it, nothing in either header ever ends it.  `right` is always a trivial type here.
+  whether a `left` object is alive (`live`) — constructor runs (`new(&left) T(..)`, member initialiser) start its
+  lifetime, `destroy_active` ends it.  `right` is always a trivial type here.
 
-  Mirrored behaviours (non-trivial left type, `nt = true`; for trivial types the same value flow, no lifetime):
-    either()                 left{} constructed, tag LEFT                                     (either.hpp:229)
-    either(const left_t&)    left(val) constructed, tag LEFT; either(const right_t&) right(val)   (l.232-235)
-    either(const either& o)  tag = o.tag; LEFT: `left = other.left` — assignment into storage in which no
-                             object was constructed (copy-assignable left type)               (l.237-252)
-    either::operator=(const either& o)  tags differ: `new(&left) left_t{}` / `new(&right) right_t{}` without
-                             destroying the previous alternative; then member assignment       (l.262-277, 39-50)
-    operator=(const left_t&) `left = val; tag = LEFT` whatever the current tag                (l.52-70)
-    operator=(const right_t&) `right = val; tag = RIGHT`: left is not destroyed
-    ~either() {}             never destroys the active member                                  (l.254)
-    maybe(const maybe& o)    base(nothing); engaged: tag = LEFT; `new(&left) T(other.left)`    (maybe.hpp:121-139)
-    maybe::operator=(const maybe& o)  engaged: `left = other.left` whatever the current tag; else
-                             `right = other.right; tag = RIGHT` without destroying left        (l.162-176)
-    maybe::operator=(const U&) → either's value assignment;  ~maybe() = default
+  Mirrored behaviours (non-trivial left type, `nt = true`; for trivial types the same value flow, no lifetime) —
+  state of the code after the `fix:` commit C19-either-maybe-lifetime:
+    either()                 left{} constructed, tag LEFT
+    either(const left_t&)    left(val) constructed, tag LEFT; either(const right_t&) right(val)
+    either(const either& o)  tag = o.tag; the active alternative of `o` is copy-CONSTRUCTED in place
+    base_either::destroy_active   ends the lifetime of the active alternative (`~left_t()` when LEFT is active)
+    base_either::assign_value(v)  same alternative active: member assignment (a live object); other alternative
+                             active: `destroy_active()`, copy-construct `v` in place, switch the tag
+    either::operator=(const either& o)  `&o == this`: nothing; else `assign_value` of `o`'s active alternative
+    operator=(const left_t&) / operator=(const right_t&)   `assign_value`
+    ~either()                `destroy_active()` (non-trivially destructible alternatives)
+    maybe(const maybe& o)    base(nothing); engaged: tag = LEFT; `new(&left) T(other.left)`
+    maybe::operator=(const maybe& o)  non-trivial T: either's assignment;  trivial T: member assignment
+    maybe::operator=(const U&) → either's value assignment;  ~maybe() = default → ~either()
   Core Lean only.
 -/
 namespace NmVerif.Containers
@@ -89,6 +89,13 @@ def mkL (cfg : ECfg α β) (v : α) (L : Ledger) : Eith α β × Ledger :=
 def mkR (_cfg : ECfg α β) (v : β) (L : Ledger) : Eith α β × Ledger :=
   ({ (raw : Eith α β) with right := some v }, L)
 
+/-- `destroy_active()`: the destructor of the left type runs when LEFT is active -/
+def destroyActive (cfg : ECfg α β) (x : Eith α β) (L : Ledger) : Eith α β × Ledger :=
+  if x.tagL then
+    ({ x with left := { x.left with live := false } },
+     if cfg.nt then (if x.left.live then L.dtor else L.flag .destroyDead) else L)
+  else (x, L)
+
 def mkCopy (cfg : ECfg α β) (o : Eith α β) (L : Ledger) : Eith α β × Ledger :=
   if !cfg.nt then ({ o with left := { o.left with live := false } }, L)     -- trivially copyable: bitwise
   else if cfg.isMaybe then
@@ -98,36 +105,34 @@ def mkCopy (cfg : ECfg α β) (o : Eith α β) (L : Ledger) : Eith α β × Ledg
     else ({ (raw : Eith α β) with right := some cfg.zeroR }, L)
   else
     if o.tagL then
-      let r := assignLeft cfg (raw : Eith α β) o.left.val L
+      let r := ctorLeft cfg (raw : Eith α β) o.left.val L
       ({ r.1 with tagL := true }, r.2)
     else ({ (raw : Eith α β) with right := o.right }, L)
 
-/-- `x = o` (`o` a snapshot of the source; for `x = x` the source is `x` itself) -/
-def assign (cfg : ECfg α β) (x o : Eith α β) (L : Ledger) : Eith α β × Ledger :=
-  if cfg.isMaybe then
-    if o.tagL then
-      let r := assignLeft cfg x o.left.val L
-      ({ r.1 with tagL := true }, r.2)
-    else ({ x with right := o.right, tagL := false }, L)
+/-- `assign_value(const left_t&)` -/
+def assignValueL (cfg : ECfg α β) (x : Eith α β) (c : Cell α) (L : Ledger) : Eith α β × Ledger :=
+  if x.tagL then assignLeft cfg x c L
   else
-    let r1 : Eith α β × Ledger :=
-      if o.tagL != x.tagL then
-        if o.tagL then
-          let r := ctorLeft cfg x (some cfg.zeroL) L
-          ({ r.1 with tagL := true }, r.2)
-        else ({ x with right := some cfg.zeroR, tagL := false }, L)
-      else (x, L)
-    if o.tagL then
-      let r := assignLeft cfg r1.1 o.left.val r1.2
-      ({ r.1 with tagL := true }, r.2)
-    else ({ r1.1 with right := o.right, tagL := false }, r1.2)
+    let r := ctorLeft cfg x c L
+    ({ r.1 with tagL := true }, r.2)
 
-def setL (cfg : ECfg α β) (x : Eith α β) (v : α) (L : Ledger) : Eith α β × Ledger :=
-  let r := assignLeft cfg x (some v) L
-  ({ r.1 with tagL := true }, r.2)
+/-- `assign_value(const right_t&)` (the right type is trivial) -/
+def assignValueR (cfg : ECfg α β) (x : Eith α β) (v : Cell β) (L : Ledger) : Eith α β × Ledger :=
+  if x.tagL then
+    let r := destroyActive cfg x L
+    ({ r.1 with right := v, tagL := false }, r.2)
+  else ({ x with right := v }, L)
 
-def setR (_cfg : ECfg α β) (x : Eith α β) (v : β) (L : Ledger) : Eith α β × Ledger :=
-  ({ x with right := some v, tagL := false }, L)
+/-- `x = o`, `o` a different object (`x = x` returns at once: `estep`) -/
+def assign (cfg : ECfg α β) (x o : Eith α β) (L : Ledger) : Eith α β × Ledger :=
+  if o.tagL then assignValueL cfg x o.left.val L else assignValueR cfg x o.right L
+
+def setL (cfg : ECfg α β) (x : Eith α β) (v : α) (L : Ledger) : Eith α β × Ledger := assignValueL cfg x (some v) L
+
+def setR (cfg : ECfg α β) (x : Eith α β) (v : β) (L : Ledger) : Eith α β × Ledger := assignValueR cfg x (some v) L
+
+/-- `~either()` -/
+def destroy (cfg : ECfg α β) (x : Eith α β) (L : Ledger) : Ledger := (destroyActive cfg x L).2
 
 /-- the value the client reads: the active alternative -/
 def get (x : Eith α β) : Option (Sum α β) :=
@@ -164,7 +169,7 @@ def estep (cfg : ECfg α β) (w : EWorld α β) (op : EOp α β) : EWorld α β 
     | _, _ => w
   | .assign d s =>
     match w.objs d, w.objs s with
-    | some x, some o => let r := Eith.assign cfg x o w.led; w.put d (some r.1) r.2
+    | some x, some o => if d = s then w else let r := Eith.assign cfg x o w.led; w.put d (some r.1) r.2
     | _, _ => w
   | .setL s v =>
     match w.objs s with
@@ -181,7 +186,7 @@ def estep (cfg : ECfg α β) (w : EWorld α β) (op : EOp α β) : EWorld α β 
   | .read _ => w
   | .destroy s =>
     match w.objs s with
-    | some _ => w.put s none w.led          -- `~either() {}` / `~maybe() = default`: nothing is destroyed
+    | some x => w.put s none (Eith.destroy cfg x w.led)
     | none => w
 
 def erun (cfg : ECfg α β) (w : EWorld α β) : List (EOp α β) → EWorld α β
